@@ -1,4 +1,5 @@
-import KV.Proofs.CsStep
+import KV.Proofs.CsLock
+import KV.Proofs.CsFrame
 /-!
 # C03 — a correct validator never equivocates and obeys the locking rules
 
@@ -60,6 +61,11 @@ theorem run_inv {cfg : Config} : ∀ (inputs : List (Option Nat × Input)) (σ :
     Inv cfg (run cfg σ inputs)
   | [], _, I, _ => I
   | (nb, i) :: rest, _, I, hs => run_inv rest _ (step_inv I nb i hs.1) hs.2
+
+theorem run_lock {cfg : Config} : ∀ (inputs : List (Option Nat × Input)) (σ : State), Inv cfg σ → Lock cfg σ →
+    Sane cfg σ inputs → Lock cfg (run cfg σ inputs)
+  | [], _, _, L, _ => L
+  | (nb, i) :: rest, _, I, L, hs => run_lock rest _ (step_inv I nb i hs.1) (step_lock I L nb i hs.1) hs.2
 
 /-- a scheduled timeout is never for a later round of the current height -/
 theorem scheduled_ok {cfg : Config} : ∀ (inputs : List (Option Nat × Input)) (σ : State), Inv cfg σ →
@@ -128,21 +134,21 @@ theorem votes_valid_only (cfg : Config) (h0 : Nat) (inputs : List (Option Nat ×
   · exact this
   · exact this.2
 
-/-! ### stated, not yet proved (monitored by the oracle of the harness) -/
+/-! ### the lock rule -/
 
 /-- **(3) lock_rule** — obligation O3 of the agreement proof (DESIGN Appendix A) with "received"
 = in the node's own vote sets: if the node precommitted block `b` at round `r` and prevotes
 `x ≠ b` at a later round `r'` of the same height, then its prevote sets contain +2/3 for some
 value `≠ b` at a round in `(r, r']`.
 
-Not proved yet.  Intended invariant (each clause is preserved by every `enterX`; the pieces
-`Sorted`/`Below` and `quorum` monotonicity (`VLe`) it needs are proved above): for every
+Proved below (`lock_rule`) from the invariant `Cs.Lock` (`KV/Proofs/CsLock.lean`): for every
 `signVote precommit H r (some b)` in the log at the current height `H`, either
 `locked = some ⟨b,_⟩ ∧ r ≤ lockedRound`, or `∃ r'' x'', r < r'' ≤ round ∧ x'' ≠ some b ∧
-quorum prevote H r'' x''` — established by the three unlock sites (`polkaUnlock`: polka from a
+quorum prevote H r'' x''` — established by the unlock sites (`polkaUnlock`: polka from a
 round in `(lockedRound, round]`; `doPrecommit`: nil polka / polka for another block in the current
-round, which is later than `r` by `sign_once`) and consumed by `doPrevote` (a locked node prevotes
-its locked block).  The harness oracle checks the clause on the real node (`c03/lock-rule`). -/
+round, which is later than `r` because the signature log is sorted) and by locking on another
+block, consumed by `doPrevote` (a locked node prevotes its locked block).  The harness oracle
+checks the same clause on the real node (`c03/lock-rule`). -/
 def lockRuleStatement : Prop :=
   ∀ (cfg : Config) (h0 : Nat) (inputs : List (Option Nat × Input)), Sane cfg (init cfg h0) inputs →
     ∀ (h r r' b : Nat) (x : Target),
@@ -152,17 +158,74 @@ def lockRuleStatement : Prop :=
       ∃ r'' x'', r < r'' ∧ r'' ≤ r' ∧ x'' ≠ some b ∧
         quorum cfg.powers (run cfg (init cfg h0) inputs).votes .prevote h r'' x''
 
+/-- **(3) lock_rule**, for every run (any inputs, timeouts as in `Sane`). -/
+theorem lock_rule : lockRuleStatement := by
+  intro cfg h0 inputs hs h r r' b x h1 h2 h3 h4
+  exact (run_lock inputs _ (init_inv cfg h0) (init_lock cfg h0) hs).hist h r r' b x h1 h2 h3 h4
+
+/-- the state form of the lock invariant: a node that precommitted `b` at round `r` of the height
+it is still working on is locked on `b` since a round `≥ r`, or its prevote sets hold +2/3 for
+another value at a round in `(r, current round]` -/
+theorem lock_held (cfg : Config) (h0 : Nat) (inputs : List (Option Nat × Input))
+    (hs : Sane cfg (init cfg h0) inputs) (r b : Nat)
+    (hmem : Action.signVote .precommit (run cfg (init cfg h0) inputs).height r (some b) ∈
+      (run cfg (init cfg h0) inputs).log) :
+    (∃ blk, (run cfg (init cfg h0) inputs).locked = some blk ∧ blk.id = b ∧
+      r ≤ (run cfg (init cfg h0) inputs).lockedRound) ∨
+    ∃ r'' x'', r < r'' ∧ r'' ≤ (run cfg (init cfg h0) inputs).round ∧ x'' ≠ some b ∧
+      quorum cfg.powers (run cfg (init cfg h0) inputs).votes .prevote
+        (run cfg (init cfg h0) inputs).height r'' x'' :=
+  (run_lock inputs _ (init_inv cfg h0) (init_lock cfg h0) hs).cur r b hmem
+
+/-! ### the validity bit read as a function of the block -/
+
 /-- reading of the `ok` bit as an environment function: if every `block` input carries
 `ok = valid id` then every block in `seen` does, so `validSeen seen h b → valid b = true` and
-(2), (4), (5) conclude `valid b`.  Not proved as a separate theorem (`seen` is only extended by
-`storeBlock` with the input's pair).  The real `ValidateBlock` is *not* such a function of the
-block id while defect F8 is open (verdict cached by header hash): see
+(2), (4), (5) conclude `valid b`.  Proved below (`valid_reading`; `seen` is only extended by
+`storeBlock` with the input's pair: `Cs.step_frame`).  The real `ValidateBlock` is *not* such a
+function of the block id while defect F8 is open (verdict cached by header hash): see
 `valid_reading_needs_consistent_answers_counterexample` and notes/C03.md. -/
 def validReadingStatement : Prop :=
   ∀ (valid : Nat → Bool) (cfg : Config) (h0 : Nat) (inputs : List (Option Nat × Input)),
     Sane cfg (init cfg h0) inputs →
     (∀ nb h id ok dec, (nb, Input.block h id ok dec) ∈ inputs → ok = valid id) →
     ∀ h b, validSeen (run cfg (init cfg h0) inputs).seen h b → valid b = true
+
+theorem run_seen (valid : Nat → Bool) (cfg : Config) : ∀ (inputs : List (Option Nat × Input)) (σ : State),
+    (∀ nb h id ok dec, (nb, Input.block h id ok dec) ∈ inputs → ok = valid id) →
+    (∀ x ∈ σ.seen, x.2.ok = valid x.2.id) → ∀ x ∈ (run cfg σ inputs).seen, x.2.ok = valid x.2.id
+  | [], _, _, hs => hs
+  | (nb, i) :: rest, σ, hin, hs => by
+    apply run_seen valid cfg rest _ (fun nb' h id ok dec hm => hin nb' h id ok dec (List.mem_cons_of_mem _ hm))
+    intro x hx
+    rcases (step_frame cfg σ nb i).seen with he | ⟨h', b, hb, he⟩
+    · rw [he] at hx; exact hs x hx
+    · rw [he] at hx
+      rcases List.mem_cons.mp hx with rfl | hx
+      · cases i with
+        | block h id ok dec =>
+          simp only [blockOf, Option.some.injEq] at hb
+          subst hb
+          exact hin nb h id ok dec (List.mem_cons_self ..)
+        | _ => simp [blockOf] at hb
+      · exact hs x hx
+
+/-- **valid_reading.** If the environment's validity answers are a function `valid` of the block
+id, every block the node assembled with a positive answer is valid; with
+`precommit_justified`, `commit_justified`, `votes_valid_only`: the node votes for and commits
+only blocks with `valid b`. -/
+theorem valid_reading : validReadingStatement := by
+  intro valid cfg h0 inputs _ hin h b ⟨blk, hm, hid, hok⟩
+  have := run_seen valid cfg inputs (init cfg h0) hin (by intro x hx; simp [init] at hx) (h, blk) hm
+  simp only at this
+  rw [← hid, ← this]; exact hok
+
+/-- (4) with the reading: a committed block is valid -/
+theorem commit_valid (valid : Nat → Bool) (cfg : Config) (h0 : Nat) (inputs : List (Option Nat × Input))
+    (hs : Sane cfg (init cfg h0) inputs)
+    (hin : ∀ nb h id ok dec, (nb, Input.block h id ok dec) ∈ inputs → ok = valid id) (h b : Nat)
+    (hmem : Action.commit h b ∈ (run cfg (init cfg h0) inputs).log) : valid b = true :=
+  valid_reading valid cfg h0 inputs hs hin h b (commit_justified cfg h0 inputs hs h b hmem).2
 
 /-! ### the hypothesis on timeouts is necessary -/
 
@@ -222,5 +285,43 @@ example : (run cfg4 (init cfg4 1) happyRun).log =
 
 example : Sane cfg4 (init cfg4 1) happyRun := by
   simp only [happyRun, Sane, TimeoutOk]; decide
+
+/-! ### non-vacuity of `lock_rule`: the node locks block 7 in round 1, is unlocked by a nil polka
+in round 2 (after prevoting its locked block there) and prevotes nil in round 3 -/
+
+def unlockRun : List (Option Nat × Input) :=
+  [ (none, .timeout 1 1 .newHeight),
+    (none, .proposal 1 true 1 1 0 7),
+    (none, .block 1 7 true true),
+    (none, .vote 0 0 .prevote 1 1 (some 7) true),
+    (none, .vote 1 1 .prevote 1 1 (some 7) true),
+    (none, .vote 1 2 .prevote 1 1 (some 7) true),
+    (none, .vote 0 0 .precommit 1 1 (some 7) true),
+    (none, .vote 1 1 .prevote 1 2 none true),
+    (none, .vote 1 2 .prevote 1 2 none true),
+    (none, .vote 1 3 .prevote 1 2 none true),
+    (none, .timeout 1 2 .propose),
+    (none, .vote 0 0 .prevote 1 2 (some 7) true),
+    (none, .vote 0 0 .precommit 1 2 none true),
+    (none, .vote 1 1 .prevote 1 3 (some 8) true),
+    (none, .vote 1 2 .prevote 1 3 (some 8) true),
+    (none, .vote 1 3 .prevote 1 3 (some 8) true),
+    (none, .timeout 1 3 .propose) ]
+
+example : (run cfg4 (init cfg4 1) unlockRun).log =
+    [.signVote .prevote 1 3 none, .schedule 1 3 .propose, .signVote .precommit 1 2 none,
+     .signVote .prevote 1 2 (some 7), .schedule 1 2 .propose, .signVote .precommit 1 1 (some 7),
+     .signVote .prevote 1 1 (some 7), .schedule 1 1 .propose] := by decide
+
+example : Sane cfg4 (init cfg4 1) unlockRun := by
+  simp only [unlockRun, Sane, TimeoutOk]; decide
+
+/-- the hypotheses of `lock_rule` hold on `unlockRun` with `r = 1`, `b = 7`, `r' = 3`, `x = nil`;
+the witness is the nil polka of round 2 -/
+example : Action.signVote .precommit 1 1 (some 7) ∈ (run cfg4 (init cfg4 1) unlockRun).log ∧
+    Action.signVote .prevote 1 3 none ∈ (run cfg4 (init cfg4 1) unlockRun).log ∧
+    quorum cfg4.powers (run cfg4 (init cfg4 1) unlockRun).votes .prevote 1 2 none := by
+  refine ⟨by decide, by decide, ?_⟩
+  unfold quorum; decide
 
 end KV.Props.C03
